@@ -49,6 +49,7 @@ def inst_id(tail_id, addr_id, pat):
 def sweep_item(item):
     cpu, tail_id, addr_id, first, count, tail = item
     vd = core.get_vdrv(10)
+    vd.set_timeout(10)
     out = {"cpu": cpu, "bad": [], "hist": {}, "crash": [], "n": 0}
     p = first
     end = first + count
@@ -135,7 +136,7 @@ def parse_addrs(cpu, out):
 def range_item(item):
     cpu, bpa, specs = item
     vd = core.get_vdrv(10)
-    vd.timeout_cpu = 4
+    vd.set_timeout(4)
     results = []
     hung = False
     for rid, start, end, base, data in specs:
